@@ -4,7 +4,7 @@
 tier="${1:-quick}"
 out=/verif/seeded/SWEEP.txt
 : > $out.tmp
-for d in /verif/seeded/*/; do
+for d in /verif/seeded/[A-Z]*/; do
   name=$(basename $d)
   prop=$(python3 -c "import json;print(json.load(open('$d/meta.json'))['property'])")
   res=$(/verif/tools/try_seed_scratch.sh $d/patch.diff $tier $prop 2>&1 | tail -1)
